@@ -211,7 +211,7 @@ impl RollState {
                 *current_size = 0;
             }
             RollState::Age { age: _, created_at } => {
-                *created_at = get_creation_timestamp(path);
+                *created_at = creation_timestamp_of_new_file(path);
             }
             RollState::AgeOrSize {
                 age: _,
@@ -219,7 +219,7 @@ impl RollState {
                 max_size: _,
                 current_size,
             } => {
-                *created_at = get_creation_timestamp(path);
+                *created_at = creation_timestamp_of_new_file(path);
                 *current_size = 0;
             }
         }
@@ -725,6 +725,12 @@ fn get_creation_timestamp(path: &Path) -> DateTime<Local> {
             .or_else(|_| try_get_modification_timestamp(path))
             .unwrap_or_else(|_| get_current_timestamp())
     }
+}
+// The file was just created by a rotation. File systems stamp new files with a coarse clock
+// that can lag the wall clock by some milliseconds; right after a period boundary such a
+// creation time still lies in the old period and would cause a second rotation.
+fn creation_timestamp_of_new_file(path: &Path) -> DateTime<Local> {
+    std::cmp::max(get_creation_timestamp(path), get_current_timestamp())
 }
 fn try_get_creation_timestamp(path: &Path) -> Result<DateTime<Local>, FlexiLoggerError> {
     Ok(std::fs::metadata(path)?.created()?.into())
